@@ -271,14 +271,28 @@ class TcpConnection():
         self._read()
 
         if self._recv_buffer:
+            #: The received stream is shared with the thread which parses it.
+            self.lock.acquire()
             self._recv_data_stream += copy.copy(self._recv_buffer)
             self._recv_data_available.set()
+            self.lock.release()
             self._recv_buffer = b""
 
         tcp_connection.debug(f"[Socket-{self.sock_id}] _recv_buffer has "\
                              f"been cleaned up")
 
         self._set_selector_events_mask("r")
+
+
+    def take_recv_data_stream(self) -> bytes:
+        """Hands over, exactly once, the bytes received so far.
+        """
+        self.lock.acquire()
+        data_stream = self._recv_data_stream
+        self._recv_data_stream = b""
+        self._recv_data_available.clear()
+        self.lock.release()
+        return data_stream
 
 
     def test_connection(self) -> bool:
